@@ -297,7 +297,7 @@ func Resolve(v ssa.Value) ssa.Value {
 				return v
 			}
 			if a, ok := x.X.(*ssa.Alloc); ok {
-				if s := reachingStore(a, x); s != nil {
+				if s := reachingStore(a, x); s != nil && !fieldWritten(a) {
 					v = s.Val
 					continue
 				}
@@ -318,6 +318,51 @@ func Resolve(v ssa.Value) ssa.Value {
 		}
 	}
 	return v
+}
+
+// fieldWritten: some field (or element) of the struct/array kept in cell a is stored to through an address derived from
+// a - the cell then no longer holds what its one whole-value store put there.
+func fieldWritten(a *ssa.Alloc) bool {
+	if a.Referrers() == nil {
+		return false
+	}
+	var written func(addr ssa.Value, d int) bool
+	written = func(addr ssa.Value, d int) bool {
+		refs := addr.Referrers()
+		if refs == nil || d > 3 {
+			return false
+		}
+		for _, r := range *refs {
+			switch y := r.(type) {
+			case *ssa.Store:
+				if y.Addr == addr {
+					return true
+				}
+			case *ssa.FieldAddr:
+				if y.X == addr && written(y, d+1) {
+					return true
+				}
+			case *ssa.IndexAddr:
+				if y.X == addr && written(y, d+1) {
+					return true
+				}
+			}
+		}
+		return false
+	}
+	for _, r := range *a.Referrers() {
+		switch y := r.(type) {
+		case *ssa.FieldAddr:
+			if y.X == ssa.Value(a) && written(y, 0) {
+				return true
+			}
+		case *ssa.IndexAddr:
+			if y.X == ssa.Value(a) && written(y, 0) {
+				return true
+			}
+		}
+	}
+	return false
 }
 
 // reachingStore returns the unique store that defines the load ld of alloc a, or nil: either the
